@@ -236,6 +236,11 @@ def measure_arm_descriptor(arm_body):
     return d
 
 
+# uninterpreted guard conditions / early exits present in today's rule bodies (counted 2026-09-26): only ADDITIONAL ones make a mismatch undecided
+BASELINE_OPAQUE = {'basic_rules::remove_pair_unchecked': 4}
+BASELINE_EXITS = {}
+
+
 def run(ck):
     facts = ck.facts
     ck.decided('D1 phase/vars co-transfer: wherever a vertex\'s phase flows into another vertex\'s phase, its parity flows there too, in the same loop context (also through loop accumulators)',
@@ -257,9 +262,15 @@ def run(ck):
     for key, dom in CONSISTENCY.items():
         ck.fn(key)
         r = rvars.check_rule(facts, key, dom)
-        ck.ob('R-VARS-consistency', key + '/analysable', r['effects'] >= 1 and r['unknown'] == 0 and r['checked'] >= 2, ck.site(key),
-              'scalar effects of the rule are not analysable (%d effects, %d unknown, %d assignments checked): not-established-by-recognised-idiom' % (r['effects'], r['unknown'], r['checked']),
-              sample={k: (v if k != 'mismatches' else len(v)) for k, v in r.items()})
+        analysable = r['effects'] >= 1 and r['unknown'] == 0 and r['checked'] >= 2
+        # conditions the walker could not interpret are explored as free booleans; a mismatch that appears only with such free conditions
+        # (or after an early exit whose negation is not tracked) is not a refutation
+        baseline = BASELINE_OPAQUE.get(key, 0)
+        if not analysable or ((r['opaque'] > baseline or r.get('early_exits', 0) > BASELINE_EXITS.get(key, 0)) and r['mismatches']):
+            ck.ob3('R-VARS-consistency', key, None if (r['mismatches'] or not analysable) else True, ck.site(key),
+                   'the scalar effects of the rule are guarded by conditions the rule does not interpret (%d uninterpreted conditions, %d early exits, %d effects with unknown values): vars-consistency is not decided' % (r['opaque'], r.get('early_exits', 0), r['unknown']))
+            continue
+        ck.ob('R-VARS-consistency', key + '/analysable', True, ck.site(key), '', sample={k: (v if k != 'mismatches' else len(v)) for k, v in r.items()})
         ck.ob('R-VARS-consistency', key, not r['mismatches'], ck.site(key),
               'with boolean parameters the scalar differs from the parameter-free scalar at the shifted phases in %d of %d cases, e.g. %s' % (len(r['mismatches']), r['checked'], r['mismatches'][:2]),
               sample={'checked': r['checked'], 'symbols': r['symbols']})
